@@ -87,3 +87,52 @@ def show(f):
     if f is None:
         return "?"
     return " . ".join(n + ("^-1" if i else "") + ("^T" if t else "") for n, i, t in f) or "I"
+
+
+def affine(e, resolve, env, xname, depth=0):
+    """affine normal form of e as a function of the row-vector array `xname`:
+    returns (lin, consts) with value = X . lin + sum(consts), lin a factor list (without X) or None if e does not contain X,
+    consts a list of factor lists; None if e is not affine in X"""
+    if depth > 12:
+        return None
+    if isinstance(e, ast.Name) and e.id in env and env[e.id] is not None and e.id != xname:
+        return affine(env[e.id], resolve, {k: v for k, v in env.items() if k != e.id}, xname, depth + 1)
+    if isinstance(e, ast.Name) and e.id == xname:
+        return ([], [])
+    if isinstance(e, ast.BinOp) and isinstance(e.op, (ast.Add, ast.Sub)):
+        a = affine(e.left, resolve, env, xname, depth + 1)
+        b = affine(e.right, resolve, env, xname, depth + 1)
+        if a is None or b is None:
+            return None
+        if a[0] is not None and b[0] is not None:
+            return None
+        if isinstance(e.op, ast.Sub):
+            b = (b[0], [[("-",) + tuple(c[0])] + c[1:] if c else c for c in b[1]])
+        return (a[0] if a[0] is not None else b[0], a[1] + b[1])
+    prod = None
+    if isinstance(e, ast.Call) and resolve(e.func) in DOTS and len(e.args) == 2:
+        prod = (e.args[0], e.args[1])
+    elif isinstance(e, ast.BinOp) and isinstance(e.op, ast.MatMult):
+        prod = (e.left, e.right)
+    if prod:
+        a = affine(prod[0], resolve, env, xname, depth + 1)
+        m = nf(prod[1], resolve, env)
+        if a is None or m is None:
+            return None
+        if a[0] is None and not a[1]:
+            return None
+        return ((a[0] + m) if a[0] is not None else None, [c + m for c in a[1]])
+    if isinstance(e, ast.Attribute) and e.attr == "T":
+        # (M @ X.T).T forms: handle through nf when purely linear
+        f = nf(e, resolve, env)
+        if f and f[0][0] == xname and not f[0][1] and not f[0][2]:
+            return (f[1:], [])
+        return None
+    f = nf(e, resolve, env)
+    if f is None:
+        return None
+    if any(x[0] == xname for x in f):
+        if f[0][0] == xname and not f[0][1] and not f[0][2] and not any(x[0] == xname for x in f[1:]):
+            return (f[1:], [])
+        return None
+    return (None, [f])
